@@ -105,6 +105,8 @@ def _flagged(w, ev, slot, name, do, expected, oracle, approx=None,
     out = []
     w.case(oracle, name, slot, ax=ev.get('ax', 0) & 1, inplace=inplace,
            twin=twin, fault=ev.get('fault') is not None, refuse=refuse)
+    w.case('inplace.equiv' if inplace else 'noninplace.receiver_changed',
+           name, slot, twin=twin, fault=ev.get('fault') is not None)
 
     def compare(real_t, what):
         if approx is not None:
@@ -198,6 +200,8 @@ def _newtable(w, ev, slot, name, do, expected, oracle, args=(), adopt=None,
     refuse = isinstance(expected, ModelError)
     w.case(oracle, name, slot, ax=ev.get('ax', 0) & 1,
            fault=ev.get('fault') is not None, refuse=refuse)
+    w.case('newtable.input_changed', name, slot, nargs=len(args),
+           fault=ev.get('fault') is not None)
     status, res = _call(lambda: do(slot.real))
     others = [slot] + list(args)
     if status == 'fault':
